@@ -659,7 +659,7 @@ class RunLength2dArray(IndexableMixin, np.lib.mixins.NDArrayOperatorsMixin):
     def sum(self, axis: int = None, out=None) -> ArrayLike:
         if axis in (0, -2):
             return self._col_sum()
-        assert (axis == -1 or axis is None)
+        assert (axis in (-1, 1) or axis is None)
         lens = (self._indices[:, 1:]-self._indices[:, :-1])
         last_lens = None if self._row_len is None else self._row_len-self._indices[:, -1]
         if np.issubdtype(self._values.dtype, np.unsignedinteger):
